@@ -33,6 +33,7 @@ class Ent:
         self.renameable = renameable
         self.extended = extended
         self.finding = None      # entity-level finding family (two_libraries)
+        self.focus = False       # alias / item named in a by-item use clause (sampled in every quick run)
         self.cross = False       # entity-declarative-part item referenced from other files (always sampled)
         self.occs = []
 
@@ -297,6 +298,17 @@ def gen_project(seed, idx, family=None):
     f_tmp = P.ent("tmp", "variable")
     res_f = P.ent("resolve", "function")
     res_p = P.ent("rv", "parameter")
+    f_one = P.ent("fone", "function")
+    f1p = P.ent("y", "parameter")
+    pk_sig = P.ent("pk_sig", "signal")
+    pa_c = P.ent("pal_c", "alias")
+    pa_f = P.ent("pal_f", "alias")
+    pa_t = P.ent("pal_t", "alias")
+    pa_lit = P.ent("pal_lit", "alias")
+    pa_aa = P.ent("pal_aa", "alias")
+    uniq_lit = [x for x in lit_c if x.name != shared_lit][0]
+    for x_ in (pa_c, pa_f, pa_t, pa_lit, pa_aa, f_one, pk_sig):
+        x_.focus = True
     res_st = P.ent("rbit_t", "subtype")
     res_bv = P.ent("rbv_t", "subtype")
     res_rec = P.ent("rrec_t", "subtype")
@@ -344,6 +356,14 @@ def gen_project(seed, idx, family=None):
     ln("    port (", d(cpa), " : in bit; ", d(cpb), " : out bit);")
     ln("  end component", *([" ", e(comp)] if R.random() < 0.7 else []), ";")
     ln("  attribute ", d(attr), " : integer;")
+    ln("  function ", d(f_one), " (", d(f1p), " : integer) return integer;")
+    ln("  signal ", d(pk_sig), " : bit;")
+    # aliases of every kind declared in a package (named by `use pkg.alias` elsewhere)
+    ln("  alias ", d(pa_c), " is ", r(c_w), ";")
+    ln("  alias ", d(pa_f), " is ", r(f_one), " [integer return integer];")
+    ln("  alias ", d(pa_t), " is ", r(small_t), ";")
+    ln("  alias ", d(pa_lit), " is ", r(uniq_lit), " [return ", r(col_t), "];")
+    ln("  alias ", d(pa_aa), " is ", r(pa_c), ";")
     ln("end package ", e(PK), ";")
     ln()
     if R.random() < 0.6:
@@ -352,6 +372,10 @@ def gen_project(seed, idx, family=None):
             P.unicode_files.add("types_pk_body.vhd")
     ln("package body ", r(PK), " is")
     ln("  constant ", d(c_def), " : ", r(rec_t), " := (", r(el_a), " => ", r(c_w), ", ", r(el_b), " => ", r(lit_c[0]), ");")
+    ln("  function ", d(f_one), " (", d(f1p), " : integer) return integer is")
+    ln("  begin")
+    ln("    return ", r(f1p), " + ", r(pa_aa), ";")
+    ln("  end function ", e(f_one), ";")
     ln("  function ", d(f_int), " (", d(fp_int), " : integer) return integer is")
     ln("    variable ", d(f_tmp), " : integer;")
     ln("  begin")
@@ -384,7 +408,7 @@ def gen_project(seed, idx, family=None):
         ln("  end function ", e(res_f), ";")
     ln("end package body ", e(PK), ";")
     decl_side = {}
-    for pe in (fp_int, fp_bit, fp_col, pr_s, pr_v, u_fa, res_p):
+    for pe in (fp_int, fp_bit, fp_col, pr_s, pr_v, u_fa, res_p, f1p):
         decl_side[pe] = split_decl_body_param(P, pe)
 
     # ------------------------------------------------------------------ lib1: core entity + architecture
@@ -414,6 +438,18 @@ def gen_project(seed, idx, family=None):
     rj_s = P.ent("rjs", "signal")
     t_rej = P.ent("t_rej", "constant")
     locf = P.ent("loc", "function")
+    bus8 = P.ent("bus", "signal")
+    a_lo = P.ent("a_lo", "alias")
+    a_b0 = P.ent("a_b0", "alias")
+    a_al = P.ent("a_al", "alias")
+    a_t = P.ent("a_ty", "alias")
+    a_f = P.ent("a_fn", "alias")
+    a_lit = P.ent("a_lit", "alias")
+    a_tv = P.ent("a_tv", "signal")
+    pal = P.ent("p_al", "label")
+    c_inst2 = P.ent("u_c2", "label")
+    for x_ in (a_lo, a_b0, a_al, a_t, a_f, a_lit, bus8):
+        x_.focus = True
     locp = P.ent("a", "parameter")
     proc = P.ent("p_main", "label")
     v1 = P.ent("v", "variable")
@@ -551,6 +587,19 @@ def gen_project(seed, idx, family=None):
     ln("  begin")
     ln("    return ", r(locp), " + ", r(e_c), ";")
     ln("  end function ", e(locf), ";")
+    # aliases of every kind and attribute specifications that NAME an alias
+    ln("  signal ", d(bus8), " : bit_vector(7 downto 0);")
+    ln("  alias ", d(a_lo), " : bit_vector(3 downto 0) is ", r(bus8), "(3 downto 0);")
+    ln("  alias ", d(a_b0), " is ", r(bus8), "(0);")
+    ln("  alias ", d(a_al), " is ", r(al), ";")
+    ln("  alias ", d(a_t), " is ", r(small_t), ";")
+    ln("  alias ", d(a_f), " is ", r(locf), " [integer return integer];")
+    ln("  alias ", d(a_lit), " is ", r(uniq_lit), " [return ", r(col_t), "];")
+    ln("  attribute ", r(attr), " of ", r(a_lo, "attr_spec_alias"), " : signal is 5;")
+    ln("  attribute ", r(attr), " of ", r(al, "attr_spec_alias"), " : signal is 6;")
+    ln("  attribute ", r(attr), " of ", r(a_f, "attr_spec_alias"), *([" [integer return integer]"] if R.random() < 0.5 else []),
+       " : function is 7;")
+    ln("  signal ", d(a_tv), " : ", r(a_t), ";")
     if family == "config_spec":
         ln("  for ", r(c_inst, "config_spec"), " : ", r(comp, "config_spec"), " use entity work.", r(T, "config_spec"),
            "(", r(S, "config_spec"), ");")
@@ -610,6 +659,14 @@ def gen_project(seed, idx, family=None):
     ln("  ", r(e_pr), "(", r(ey_loc), "(0), ", r(es_loc), ");")
     ln("  ", r(s2), " <= ", r(s1), " and ", r(p_a), ";")
     ln("  ", r(p_b), " <= ", r(s2), ";")
+    ln("  ", d(pal), " : process (", r(a_lo), ", ", r(a_al), ", ", r(colsig), ") is")
+    ln("  begin")
+    ln("    ", r(a_b0), " <= ", r(a_lo), "(1) and ", r(a_al), ";")
+    ln("    ", r(a_tv), " <= ", r(a_f), "(1) + ", r(a_lo), "'", r(attr), " + ", r(al), "'", r(attr), " + ", r(pa_c), " + ", r(pa_aa),
+       " + ", r(pa_f), "(2) + ", r(f_one), "(3);")
+    ln("    if ", r(colsig), " = ", r(pa_lit), " or ", r(colsig), " = ", r(a_lit), " then null; end if;")
+    ln("  end process ", e(pal), ";")
+    ln("  ", d(c_inst2), " : ", r(comp), " port map (", r(cpa), " => ", r(a_al), ", ", r(cpb), " => open);")
     ln("  ", d(blk), " : block is")
     if with_blkmap:
         ln("    generic (", d(bgen), " : integer := 1);")
@@ -673,6 +730,7 @@ def gen_project(seed, idx, family=None):
                 P.file("top_cfg.vhd", L1)
             if R.random() < 0.5:
                 ln("library ", r(lib1_ent), ";")
+            ln("use work.", r(PK), ".", r(c_w, "use_item"), ";")
             ln("configuration ", d(CFG), " of ", r(T), " is")
             ln("  for ", r(S, "block_config"))
             ln("    for ", r(u2, "block_config"), " : ", r(lcomp, "block_config"))
@@ -782,6 +840,85 @@ def gen_project(seed, idx, family=None):
         ln("begin")
         ln("  ", r(GI), ".", r(g_p, ir), "(", r(g_s), ", ", r(g_k), ");")
         ln("end architecture ", e(GUA), ";")
+
+    # ------------------------------------------------------------------ by-item use clauses `use lib.pkg.item;`
+    IPK = P.ent("ipk", "package")
+    i_k = P.ent("ik", "constant")
+    i_l = P.ent("il", "constant")
+    i_st = P.ent("ist", "subtype")
+    i_f = P.ent("ifn", "function")
+    i_fp = P.ent("ix", "parameter")
+    IE = P.ent("ient", "entity")
+    IA = P.ent("iarch", "architecture")
+    i_p = P.ent("ip", "port")
+    i_sg = P.ent("isg", "signal")
+    i_b = P.ent("ib", "signal")
+    i_u = P.ent("iu", "label")
+    i_pr = P.ent("ipr", "label")
+    i_v = P.ent("iv", "variable")
+    have_gp = "gen_inst.vhd" in P.files
+    ui = "use_item"
+    if R.random() < 0.7:
+        P.file("items.vhd", L1)
+        lw = lambda: [r(lib1_ent)] if lib_clause else ["work"]
+        lib_clause = R.random() < 0.5
+        if lib_clause:
+            ln("library ", r(lib1_ent), ";")
+        ln("use ", *lw(), ".", r(PK), ".", r(c_w, ui), ";")
+        ln("use ", *lw(), ".", r(PK), ".", r(small_t, ui), ", work.", r(PK), ".", r(f_one, ui), ";")
+        ln("use work.", r(PK), ".", r(col_t, ui), ";")
+        ln("use work.", r(PK), ".", r(uniq_lit, ui), ";")
+        ln("use work.", r(PK), ".", P.mark("op_use", "\"+\""), ";")
+        ln("use work.", r(PK), ".", r(pa_c, ui), ";")
+        ln("use work.", r(PK), ".", r(pa_f, ui), ", work.", r(PK), ".", r(pa_t, ui), ";")
+        ln("use work.", r(PK), ".", r(pa_lit, ui), ";")
+        ln("use work.", r(PK), ".", r(pa_aa, ui), ";")
+        if have_gp:
+            ln("use work.", r(PI), ".", r(GI, ui), ";")
+            ln("use work.", r(PI), ".", r(GI), ".", r(g_c, ui), ";")
+        if two_libs:
+            ln("library ", r(lib2_ent), ";")
+            ln("use ", r(lib2_ent), ".", r(UPK), ".", r(u_c, ui), ";")
+            ln("use ", r(lib2_ent), ".", r(UPK), ".", P.mark("char_use", "'1'"), ";")
+        ln("package ", d(IPK), " is")
+        ln("  constant ", d(i_k), " : ", r(small_t), " := ", r(c_w), " + ", r(pa_c), " + ", r(pa_aa), " + ", r(f_one), "(1) + ",
+           r(pa_f), "(2)", *([" + ", r(g_c), " + ", r(GI), ".", r(g_c, "pkg_instance_ref")] if have_gp else []),
+           *([" + ", r(u_c)] if two_libs else []), ";")
+        ln("  constant ", d(i_l), " : ", r(col_t), " := ", r(pa_lit), " + ", r(uniq_lit), ";")
+        ln("  subtype ", d(i_st), " is ", r(pa_t), ";")
+        ln("  function ", d(i_f), " (", d(i_fp), " : ", r(i_st), ") return integer;")
+        ln("end package ", e(IPK), ";")
+        ln("use work.", r(PK), ".", r(f_one, ui), ";")
+        ln("package body ", r(IPK), " is")
+        ln("  function ", d(i_f), " (", d(i_fp), " : ", r(i_st), ") return integer is")
+        ln("  begin")
+        ln("    return ", r(f_one), "(", r(i_fp), ");")
+        ln("  end function ", e(i_f), ";")
+        ln("end package body ", e(IPK), ";")
+        split_decl_body_param(P, i_fp)
+        ln("use work.", r(PK), ".", r(pr1, ui), ";")
+        ln("use work.", r(PK), ".", r(pk_sig, ui), ", work.", r(PK), ".", r(comp, ui), ";")
+        ln("use work.", r(PK), ".", r(attr, ui), ";")
+        ln("entity ", d(IE), " is")
+        ln("  port (", d(i_p), " : in bit);")
+        ln("end entity ", e(IE), ";")
+        ln("use work.", r(PK), ".", r(c_w, ui), ";")
+        ln("architecture ", d(IA), " of ", r(IE), " is")
+        ln("  use work.", r(PK), ".", r(small_t, ui), ";")
+        ln("  signal ", d(i_sg), " : ", r(small_t), " := ", r(c_w), ";")
+        ln("  signal ", d(i_b), " : bit;")
+        ln("  attribute ", r(attr), " of ", r(i_b), " : signal is 1;")
+        ln("begin")
+        ln("  ", r(pr1), "(", r(pk_sig), ", ", r(i_sg), ");")
+        ln("  ", d(i_u), " : ", r(comp), " port map (", r(cpa), " => ", r(i_p), ", ", r(cpb), " => open);")
+        ln("  ", d(i_pr), " : process (", r(i_p), ") is")
+        ln("    use work.", r(PK), ".", r(f_one, ui), ";")
+        ln("    variable ", d(i_v), " : integer;")
+        ln("  begin")
+        ln("    ", r(i_v), " := ", r(f_one), "(", r(i_sg), ") + ", r(i_b), "'", r(attr), ";")
+        ln("    ", r(i_b), " <= ", r(i_p), ";")
+        ln("  end process ", e(i_pr), ";")
+        ln("end architecture ", e(IA), ";")
 
     texts = P.render()
     # drop entities that were never written
